@@ -135,3 +135,14 @@ End WithEps.
 Lemma add_then_sub_assert_refuted :
   exists r x, sub_assert 2 (add r x) x = SubPanic.
 Proof. exists (mkRes (-5) 0 None), (mkRes 3 0 None). vm_compute. reflexivity. Qed.
+
+(* the identity element of the "group": adding or subtracting the empty resource changes nothing *)
+Lemma add_empty r : add r empty_res = r.
+Proof. destruct r as [c m s]. unfold add, empty_res. cbn. rewrite !Z.add_0_r. reflexivity. Qed.
+
+Lemma sub_empty r : sub r empty_res = r.
+Proof.
+  destruct r as [c m [s|]]; unfold sub, empty_res; cbn; rewrite !Z.sub_0_r; [|reflexivity].
+  f_equal. f_equal. apply map_eq. intros k. rewrite lookup_merge, lookup_empty.
+  destruct (s !! k); reflexivity.
+Qed.
